@@ -93,6 +93,27 @@ define_f80_assign_op!(DivAssign, div_assign, div);
 
 define_f80_unary_op!(Neg, neg, "fchs");
 
+impl f80 {
+    // true when the operands cannot be ordered, i.e. at least one of them is NaN
+    fn unordered(&self, rhs: &f80) -> bool {
+        let e: u32;
+        unsafe {
+            core::arch::asm! {
+                "fld     TBYTE PTR [{0}]",
+                "fld     TBYTE PTR [{1}]",
+                "fucomip st, st(1)",
+                "fstp    st(0)",
+                "setp    al",
+                in(reg) self.0.as_ptr(),
+                in(reg) rhs.0.as_ptr(),
+                out("eax") e,
+                options(nostack)
+            }
+        }
+        (e & 1) > 0
+    }
+}
+
 impl PartialOrd<f80> for f80 {
     fn lt(&self, rhs: &f80) -> bool {
         let mut res = std::mem::MaybeUninit::<u32>::uninit();
@@ -119,11 +140,11 @@ impl PartialOrd<f80> for f80 {
     }
 
     fn le(&self, rhs: &f80) -> bool {
-        !self.gt(rhs)
+        !self.unordered(rhs) && !self.gt(rhs)
     }
 
     fn ge(&self, rhs: &f80) -> bool {
-        !self.lt(rhs)
+        !self.unordered(rhs) && !self.lt(rhs)
     }
 
     fn partial_cmp(&self, rhs: &f80) -> Option<Ordering> {
